@@ -314,4 +314,61 @@ def hRace (window : Int) : HShared × List HPc → List Nat → HShared × List 
     | none => hRace window (sh, ts) sched
     | some pc => hRace window ((hMicro window sh pc).1, ts.set i (hMicro window sh pc).2) sched
 
+/-! ## unifier.EndpointManager: one unification breaker per endpoint URL
+
+`internal/adapter/unifier/endpoint_manager.go` keeps one `CircuitBreaker` per endpoint URL, created on first use
+(`getOrCreateCircuitBreakerLocked`).  `RecordFailure` / `RecordSuccess` / `GetCircuitBreaker(url).Allow()` address the
+breaker of one endpoint; `RemoveEndpoint`, a pass of `CleanupOrphaned` (for every endpoint that sources no model) and
+`LifecycleUnifier.Clear` (a new manager) forget the breaker: the next use starts from a new one.  An endpoint without
+a breaker behaves like one with a new breaker, so the model keeps a breaker for every endpoint (index = endpoint)
+and forgetting is "back to `init`".  Time passes for all endpoints alike. -/
+
+/-- Operations on the manager; `e` is the endpoint. -/
+inductive MOp where
+  | fail (e : Nat) | succ (e : Nat) | ask (e : Nat)
+  | call (e : Nat)       -- what `LifecycleUnifier.UnifyModels` does: ask; if let through, the work runs and reports success
+  | callFail (e : Nat)   -- ask; if let through, the work runs and reports failure
+  | tick (d : Nat)
+  | sweep (active : Nat) -- one pass of the orphan sweep; bit `e` of `active` = endpoint `e` sources a model
+  | forget (e : Nat)     -- RemoveEndpoint
+  | clear                -- Clear: a new manager
+  | look                 -- read-only lookups
+deriving Repr, DecidableEq, Inhabited
+
+structure Mgr where
+  cbs : List UnifierCB
+deriving Repr, DecidableEq, Inhabited
+
+def Mgr.init (n : Nat) (t0 : Int) : Mgr := ⟨List.replicate n (UnifierCB.init t0)⟩
+
+/-- The breaker the manager would hand out for endpoint `e`. -/
+def Mgr.get (m : Mgr) (e : Nat) : UnifierCB := (m.cbs[e]?).getD (UnifierCB.init 0)
+def Mgr.put (m : Mgr) (e : Nat) (s : UnifierCB) : Mgr := ⟨m.cbs.set e s⟩
+
+/-- The manager drops the breaker; the next use creates a new one (same clock). -/
+def UnifierCB.forget (s : UnifierCB) : UnifierCB := UnifierCB.init s.now
+
+/-- One breaker operation addressed to endpoint `e`. -/
+def Mgr.on (v : Variant) (c : UCfg) (m : Mgr) (e : Nat) (op : Op) : Mgr × Option Bool :=
+  let r := UnifierCB.step v c (m.get e) op
+  (m.put e r.1, r.2)
+
+def sweepFrom (active : Nat) : Nat → List UnifierCB → List UnifierCB
+  | _, [] => []
+  | i, s :: rest => (if active.testBit i then s else s.forget) :: sweepFrom active (i + 1) rest
+
+def Mgr.step (v : Variant) (c : UCfg) (m : Mgr) : MOp → Mgr × Option Bool
+  | .fail e     => m.on v c e .fail
+  | .succ e     => m.on v c e .succ
+  | .ask e      => m.on v c e .ask
+  | .call e     => let r := m.on v c e .ask
+                   if r.2 = some true then ((r.1.on v c e .succ).1, r.2) else r
+  | .callFail e => let r := m.on v c e .ask
+                   if r.2 = some true then ((r.1.on v c e .fail).1, r.2) else r
+  | .tick d     => (⟨m.cbs.map (fun s => { s with now := s.now + d })⟩, none)
+  | .sweep a    => (⟨sweepFrom a 0 m.cbs⟩, none)
+  | .forget e   => (m.put e (m.get e).forget, none)
+  | .clear      => (⟨m.cbs.map UnifierCB.forget⟩, none)
+  | .look       => (m, none)
+
 end Olla.Model.Breaker
